@@ -197,4 +197,37 @@ theorem frame_delivered_end_to_end (w : Writer.Cfg) (r : Reader.Cfg) (codec : Co
   exact C01.frame_delivered w r codec hrole hint cps opcode.toNat payloads fc (goBytesU32LE maskNum) wire (by simp [goBytesU32LE])
     hop' hfin hz he.symm hfit htext' st hidle rest
 
+/-- **End to end, compressed.**  When the translated `genFrame` takes its compressing branch (it hands over to `compressData`,
+which `TransEquiv.compressData_eq` ties to the source; the DEFLATE library is the `Codec` parameter with the laws
+`RoundTrip` and `MinOut` as hypotheses), the frame it yields is turned by ONE translated `readMessage` of a receiver
+whose decompression window holds the dictionary the sender compressed against into exactly one callback with the same
+opcode and the byte-identical payload, and the payload enters the receiver's window. -/
+theorem frame_delivered_compressed_end_to_end (w : Writer.Cfg) (r : Reader.Cfg) (codec : Codec)
+    (hrole : r.isServer = !w.isServer) (hint : r.readMax < 2 ^ 63) (hpd : r.pdEnabled = true)
+    (hRT : Compose.RoundTrip codec) (hMin : Compose.MinOut codec)
+    (cps : Win) (opcode : UInt8) (payloads : List Bytes) (fc : Writer.FrameCfg) (maskNum : UInt32) (wire : Bytes)
+    (hop : opcode = 1 ∨ opcode = 2) (hfin : fc.fin = true) (hnb : fc.broadcast = false) (hlen : payloads.flatten.length < 2 ^ 62)
+    (hz : Writer.willCompress w fc opcode.toNat payloads.flatten.length = true)
+    (hg : interpW w codec cps payloads (goBytesU32LE maskNum)
+          (Trans.Conn_genFrame GenOut.ret GenOut.compress opcode payloads.flatten (cfg_checkEncoding := fc.checkEncoding)
+            (c_config_WriteMaxPayloadSize := (w.writeMax : Int)) (cfg_compress := fc.compress) (c_pd_Threshold := (w.threshold : Int))
+            (cfg_fin := fc.fin) (cfg_broadcast := fc.broadcast) (c_isServer := w.isServer) (maskNum := maskNum)) = .ok wire)
+    (hfit : (payloads.flatten.length : Int) ≤ r.readMax)
+    (hzfit : ((Writer.stripTail (codec.compress w.bits cps.dict payloads)).length : Int) ≤ r.readMax)
+    (htext : r.checkUtf8 = true → opcode = 1 → Spec.Utf8.valid payloads.flatten = true)
+    (st : Reader.State) (hidle : st.cont.initialized = false) (hst : st.cont.opcode < 256) (hdict : cps.dict = st.dps.dict)
+    (fh rest : Bytes) (hfh : fh.length = 14) :
+    readMessageT r codec st fh (wire ++ rest) =
+      .ok { st with dps := st.dps.write payloads.flatten } [.msg opcode.toNat payloads.flatten] rest := by
+  rw [readMessage_eq_step r codec st fh (wire ++ rest) hfh hst]
+  rw [genFrame_eq w codec cps opcode payloads fc maskNum hlen] at hg
+  have hop' : opcode.toNat = 1 ∨ opcode.toNat = 2 := by rcases hop with h | h <;> simp [h]
+  have htext' : r.checkUtf8 = true → opcode.toNat = 1 → Spec.Utf8.valid payloads.flatten = true := by
+    intro hc h1
+    apply htext hc
+    apply UInt8.toNat_inj.mp
+    simpa using h1
+  exact C01.frame_delivered_compressed w r codec hrole hint hpd hRT hMin cps opcode.toNat payloads fc (goBytesU32LE maskNum) wire
+    (by simp [goBytesU32LE]) hop' hfin hnb hz hg hfit hzfit htext' st hidle hdict rest
+
 end TransProps
